@@ -11,18 +11,27 @@ from ..sym import Resolver, Term, path_of, show, walk
 from .common import loc
 
 EXPLANATION = (
-    "static analysis of the 20 shape terms: abstract interpretation of membership() over the extended-sign domain with "
-    "x = NaN and arbitrary numeric parameters must yield exactly {NaN} (NaN-in => NaN-out, precise enough that a "
-    "redundant mask may be removed but a needed one may not); with x = +inf / -inf and finite parameters (widths and "
-    "deviations positive, slopes non-zero) the result must lie in {zero, pos}: never NaN, infinite or negative; def-use rules: the height and every shape parameter "
-    "stored by the constructor reach the returned value (directly or through a nested term they construct); "
-    "is_monotonic() is True iff the class overrides tsukamoto(); elementwise safety of every kernel (C02/V1)"
+    "static analysis of the 20 shape terms. (1) Order-type interpretation (sa/ordertype.py): for every feasible order type of "
+    "(x, parameters) - which coincide, which lie below which, which are infinite, on which side of every compared linear form "
+    "(midpoints, centre +- half width) x lies; enumerated through rational witnesses - the kernel's resolved return term is "
+    "interpreted: comparisons are decided by the order type, differences get their exact sign. A2: no order type with valid "
+    "parameters and a non-NaN x yields a definite NaN (a 0/0 selected at a degenerate edge). A3: the kernel agrees with the "
+    "documented definition (class docstrings, transcribed in SPECS) at every order type - as sign classes everywhere and, where "
+    "x and the parameters are finite, as exact values: both sides are brought to a rational-function normal form for that piece "
+    "(sa/algebra.py: polynomials over the parameters, sqrt/exp/cos/abs/pow as function symbols) and compared. (2) Extended-sign "
+    "abstract interpretation: x = NaN yields exactly {NaN}; x = +-inf yields a number in {zero, pos}. (3) def-use: height and every "
+    "shape parameter reach the result; is_monotonic() is True iff tsukamoto() is overridden (a computed answer needs an override); "
+    "elementwise safety of every kernel (C02/V1)"
 )
 ASSUMPTIONS = [
-    "equality with the closed form, range [0,h], 'NaN only if x is NaN' and monotonicity are numeric and not decided",
-    "parameters are numbers (finite or infinite), height > 0",
+    "real arithmetic: equality with the documented closed form is decided over the reals; floating-point rounding at the ends of a support "
+    "(the Arc / SemiEllipse end points mentioned in the property) is not modelled",
+    "the transcription of the documented definitions in SPECS (sa/rules/c03.py) is faithful; where docstring and code order their cases differently "
+    "(Trapezoid, Triangle) the cases are applied plateau first",
+    "monotonicity in x and the range [0, height] at interior points are not decided beyond the sign class",
+    "parameters are numbers (finite, or the documented infinite shoulders), height > 0; widths and deviations positive, slopes non-zero",
 ]
-FLOORS = {"A1": 20, "A1b": 36, "D1": 20, "D2": 50, "M1": 26, "V1": 20}
+FLOORS = {"A1": 20, "A1b": 36, "A2": 19, "A3": 19, "D1": 20, "D2": 50, "M1": 26, "V1": 20}
 
 # positive-by-definition parameters (valid parameterisations): widths and standard deviations; slopes are non-zero
 POSITIVE = {"width", "standard_deviation", "standard_deviation_a", "standard_deviation_b"}
@@ -105,8 +114,226 @@ def run(check: Check) -> None:
                           f"parameter `{prm}` is stored by the constructor but never read by membership()", loc(fn))
         # V1 elementwise safety of this kernel
         c02.kernel_elementwise(check, fn, "V1", f"{name}.membership")
+    order_type_rules(check)
     monotonic_table(check)
-    check.exhaustive_parts += ["NaN-in => NaN-out: exact abstract result per term"]
+    check.exhaustive_parts += ["NaN-in => NaN-out: exact abstract result per term", "order types of (x, parameters) per piecewise kernel"]
+
+
+# ------------------------------------------------------------------------------------------------ A2 / A3
+# Documented definitions (class docstrings of fuzzylite/term.py), transcribed: short names -> constructor parameters, the
+# parameterisations the definition is stated for, and the cases in the order in which they apply (first match wins).
+SPECS: dict[str, dict] = {
+    "Binary": {"names": {"s": "start", "d": "direction"}, "valid": "d != s",
+               "cases": [("(d > s and x >= s) or (d < s and x <= s)", "h"), (None, "0")]},
+    "Concave": {"names": {"i": "inflection", "e": "end"}, "valid": "i != e",
+                "cases": [("i <= e and x < e", "h * (e - i) / (2 * e - i - x)"), ("i > e and x > e", "h * (i - e) / (i - 2 * e + x)"), (None, "h")]},
+    "Cosine": {"names": {"c": "center", "w": "width"}, "valid": None,
+               "cases": [("c - w / 2 <= x <= c + w / 2", "h / 2 * (1 + cos(2 / w * pi * (x - c)))"), (None, "0")]},
+    "Ramp": {"names": {"s": "start", "e": "end"}, "valid": "s != e",
+             "cases": [("s < x < e", "h * (x - s) / (e - s)"), ("e < x < s", "h * (s - x) / (s - e)"), ("s < e and x >= e", "h"),
+                       ("s > e and x <= e", "h"), (None, "0")]},
+    "Rectangle": {"names": {"s": "start", "e": "end"}, "valid": None,
+                  "cases": [("min(s, e) <= x <= max(s, e)", "h"), (None, "0")]},
+    "SShape": {"names": {"s": "start", "e": "end"}, "valid": "s <= e",
+               "cases": [("x <= s", "0"), ("x <= (s + e) / 2", "2 * h * ((x - s) / (e - s)) ** 2"),
+                         ("x < e", "h - 2 * h * ((x - e) / (e - s)) ** 2"), (None, "h")]},
+    "ZShape": {"names": {"s": "start", "e": "end"}, "valid": "s <= e",
+               "cases": [("x <= s", "h"), ("x < (s + e) / 2", "h - 2 * h * ((x - s) / (e - s)) ** 2"),
+                         ("x < e", "2 * h * ((x - e) / (e - s)) ** 2"), (None, "0")]},
+    "Trapezoid": {"names": {"a": "bottom_left", "b": "top_left", "c": "top_right", "d": "bottom_right"}, "valid": "a <= b <= c <= d",
+                  "cases": [("x < a or x > d", "0"), ("(b <= x <= c) or (a == -inf and x < b) or (d == inf and x > c)", "h"),
+                            ("x < b", "h * (x - a) / (b - a)"), ("x > c", "h * (d - x) / (d - c)")]},
+    "Triangle": {"names": {"a": "left", "b": "top", "c": "right"}, "valid": "a <= b <= c",
+                 "cases": [("x < a or x > c", "0"), ("x == b or (a == -inf and x < b) or (c == inf and x > b)", "h"),
+                           ("x < b", "h * (x - a) / (b - a)"), ("x > b", "h * (c - x) / (c - b)")]},
+    "SemiEllipse": {"names": {"s": "start", "e": "end"}, "valid": "s != e",
+                    "cases": [("min(s, e) <= x <= max(s, e)",
+                               "h * sqrt(((max(s, e) - min(s, e)) / 2) ** 2 - (x - (min(s, e) + (max(s, e) - min(s, e)) / 2)) ** 2) / ((max(s, e) - min(s, e)) / 2)"),
+                              (None, "0")]},
+    "Arc": {"names": {"s": "start", "e": "end"}, "valid": "s != e",
+            "cases": [("(s < e and s <= x <= e) or (s > e and e <= x <= s)", "h * sqrt((e - s) ** 2 - (x - e) ** 2) / abs(e - s)"),
+                      ("(s < e and x > e) or (s > e and x < e)", "h"), (None, "0")]},
+    "Bell": {"names": {"c": "center", "w": "width", "s": "slope"}, "valid": None,
+             "cases": [(None, "h / (1 + (abs(x - c) / w) ** (2 * s))")]},
+    "Gaussian": {"names": {"m": "mean", "d": "standard_deviation"}, "valid": None,
+                 "cases": [(None, "h * exp(-(x - m) ** 2 / (2 * d ** 2))")]},
+    "GaussianProduct": {"names": {"ma": "mean_a", "da": "standard_deviation_a", "mb": "mean_b", "db": "standard_deviation_b"}, "valid": None,
+                        "cases": [("x < ma and x > mb", "h * exp(-(x - ma) ** 2 / (2 * da ** 2)) * exp(-(x - mb) ** 2 / (2 * db ** 2))"),
+                                  ("x < ma", "h * exp(-(x - ma) ** 2 / (2 * da ** 2))"), ("x > mb", "h * exp(-(x - mb) ** 2 / (2 * db ** 2))"), (None, "h")]},
+    "Sigmoid": {"names": {"i": "inflection", "s": "slope"}, "valid": None, "cases": [(None, "h / (1 + exp(-s * (x - i)))")]},
+    "SigmoidDifference": {"names": {"l": "left", "r": "rising", "f": "falling", "g": "right"}, "valid": None,
+                          "cases": [(None, "h * abs(1 / (1 + exp(-r * (x - l))) - 1 / (1 + exp(-f * (x - g))))")]},
+    "SigmoidProduct": {"names": {"l": "left", "r": "rising", "f": "falling", "g": "right"}, "valid": None,
+                       "cases": [(None, "h * (1 / (1 + exp(-r * (x - l)))) * (1 / (1 + exp(-f * (x - g))))")]},
+    "Spike": {"names": {"c": "center", "w": "width"}, "valid": None, "cases": [(None, "h * exp(-abs(10 / w * (x - c)))")]},
+}
+# PiShape = h * SShape(bottom_left, top_left)(x) * ZShape(top_right, bottom_right)(x): the product of the two definitions, piece by piece
+_S = [("x <= a", "0"), ("x <= (a + b) / 2", "2 * ((x - a) / (b - a)) ** 2"), ("x < b", "1 - 2 * ((x - b) / (b - a)) ** 2"), ("True", "1")]
+_Z = [("x <= c", "1"), ("x < (c + d) / 2", "1 - 2 * ((x - c) / (d - c)) ** 2"), ("x < d", "2 * ((x - d) / (d - c)) ** 2"), ("True", "0")]
+SPECS["PiShape"] = {"names": {"a": "bottom_left", "b": "top_left", "c": "top_right", "d": "bottom_right"}, "valid": "a <= b <= c <= d",
+                    "cases": [(f"({cs}) and ({cz})", f"h * ({vs}) * ({vz})") for i_, (cs, vs) in enumerate(_S) for j_, (cz, vz) in enumerate(_Z)]}
+# (first match wins on the product list only if the S cases are tried in order for each Z case: make the conditions exclusive)
+SPECS["PiShape"]["cases"] = [
+    (" and ".join([f"not ({p_})" for p_, _ in _S[:i_]] + [f"({cs})"] + [f"not ({p_})" for p_, _ in _Z[:j_]] + [f"({cz})"]), f"h * ({vs}) * ({vz})")
+    for i_, (cs, vs) in enumerate(_S) for j_, (cz, vz) in enumerate(_Z)]
+# order types at which the pinned kernel answers NaN for a non-NaN x, and why this is not reported
+NAN_BY_DESIGN = {
+    "Ramp": "start == end is answered with NaN on purpose (the mask `(start < end) == (start > end)`); the definition is stated for start != end",
+}
+INFINITE_OK = {"Triangle": {"left": -1, "right": +1}, "Trapezoid": {"bottom_left": -1, "bottom_right": +1}}  # documented infinite shoulders
+
+
+_OT_CACHE: dict = {}  # (class, flattened kernel term, argument) -> per-order-type results: the result is a function of the term alone
+
+
+class _Witness(dict):
+    def __missing__(self, key):  # type: ignore[no-untyped-def]
+        return 1.37
+
+
+def exact_cases(cases, ev, alg):  # type: ignore[no-untyped-def]
+    """The documented value at this order type (first matching case), as a normal form."""
+    from ..absint import is_bool
+    from ..ordertype import NotAlgebraic, exact_value
+
+    for cond, value in cases:
+        if cond is None:
+            return exact_value(value, ev, alg)
+        c = ev.ev(cond)
+        if not is_bool(c) or len(c) != 1:
+            raise NotAlgebraic("undecided case of the definition")
+        if True in c:
+            return exact_value(value, ev, alg)
+    from ..ordertype import IsNaN
+
+    raise IsNaN()
+
+
+def order_type_rules(check: Check) -> None:
+    """A2: at no order type of (x, parameters) with valid parameters and x not NaN is the value definitely NaN.
+    A3: at no order type does the kernel disagree with the documented definition: first as sign classes (NaN / zero / positive /
+    negative / infinite), then - where x and the parameters are finite - as exact values: both sides are brought to a
+    rational-function normal form for that order type and compared."""
+    from ..algebra import Algebra
+    from ..ordertype import (X_GRID, IsNaN, LinearForms, NotAlgebraic, OrderEval, abs_sign_oracle, comparison_forms, describe, eval_cases, exact_value,
+                             flatten, leaf_env, numeric_witness, order_types, spec_term)
+
+    p = check.program
+    for name in SHAPES:
+        if name == "Discrete":
+            continue
+        c = p.cls(name)
+        fn = c.lookup("membership")
+        xname = fn.params[1].name
+        X = ("param", xname)
+        code = flatten(p, return_term(p, c, "membership"))
+        H = ("attr", ("param", "self"), "height")
+        atoms: dict = {}
+        for prm in shape_params(c):
+            a = ("attr", ("param", "self"), prm)
+            atoms[a] = "positive" if prm in POSITIVE else ("nonzero" if prm in NONZERO else "position")
+        params = dict(atoms)
+        atoms[X] = "position"
+        spec = SPECS.get(name)
+        names = {"x": X, "h": H}
+        cases = None
+        valid_t = None
+        if spec is not None:
+            names.update({k: ("attr", ("param", "self"), v) for k, v in spec["names"].items()})
+            if spec["valid"]:
+                valid_t = spec_term(spec["valid"], names)
+            if spec["cases"]:
+                cases = [(spec_term(cnd, names) if cnd else None, spec_term(val, names)) for cnd, val in spec["cases"]]
+        lf0 = LinearForms({a: 0 for a in atoms}, atoms, {})
+        all_terms = [code] + ([valid_t] if valid_t is not None else []) + [t for cs in (cases or []) for t in cs if t is not None]
+        forms = comparison_forms(lf0, all_terms)
+        inf_ok = INFINITE_OK.get(name, {})
+
+        def valid(lf, valid_t=valid_t, inf_ok=inf_ok) -> bool:  # type: ignore[no-untyped-def]
+            for a, v in lf.val.items():
+                if a != X and v in (float("inf"), float("-inf")):
+                    if inf_ok.get(a[2]) != (1 if v > 0 else -1):
+                        return False
+            if valid_t is None:
+                return True
+            return OrderEval(p, lf, leaf_env(lf, H)).ev(valid_t) == frozenset({True})
+
+        short = {X: "x", H: "h", **{a: a[2] for a in params}}
+        n_types = n_nanfree = n_agree = n_exact = n_exact_tried = 0
+        nan_at, differs, undecided = [], [], []
+        ckey = (name, code, X)
+        cached = _OT_CACHE.get(ckey)
+        if cached is not None:
+            n_types, n_nanfree, n_agree, n_exact, n_exact_tried, nan_at, differs, undecided = cached
+            nan_at, differs, undecided = list(nan_at), list(differs), list(undecided)
+        for lf in (order_types(atoms, forms, valid, {X: X_GRID}) if cached is None else ()):
+            n_types += 1
+            ev = OrderEval(p, lf, leaf_env(lf, H))
+            got = ev.ev(code)
+            where = describe(lf, short)
+            if got == Abs({NAN}):
+                nan_at.append(where)
+            elif NAN not in got:
+                n_nanfree += 1
+            if cases is None:
+                continue
+            want = eval_cases(OrderEval(p, lf, leaf_env(lf, H)), cases)
+            if not (set(got) & set(want)):
+                differs.append((where, show_abs(got), show_abs(want)))
+                continue
+            if len(got) == 1 and got == want:
+                n_agree += 1
+            if any(v in (float("inf"), float("-inf")) for v in lf.val.values()):
+                continue
+            # exact comparison on this piece
+            n_exact_tried += 1
+            alg = Algebra(abs_sign_oracle(lf))
+            try:
+                try:
+                    rc = exact_value(code, ev, alg)
+                except IsNaN:
+                    rc = "nan"
+                try:
+                    rs = exact_cases(cases, ev, alg)
+                except IsNaN:
+                    rs = "nan"
+            except NotAlgebraic as ex:
+                undecided.append((where, str(ex)))
+                continue
+            if rc == "nan" or rs == "nan":
+                if rc == rs:
+                    n_exact += 1
+                else:
+                    differs.append((where, "nan" if rc == "nan" else rc.show(alg.name(short)), "nan" if rs == "nan" else rs.show(alg.name(short))))
+                continue
+            if rc.equals(rs):
+                n_exact += 1
+                continue
+            w = _Witness(numeric_witness(lf, {H: 0.75}))
+            a_, b_ = alg.evaluate(rc, w), alg.evaluate(rs, w)
+            if a_ == a_ and b_ == b_ and abs(a_ - b_) > 1e-9 * max(1.0, abs(a_), abs(b_)):
+                differs.append((where, rc.show(alg.name(short)), rs.show(alg.name(short))))
+            else:
+                undecided.append((where, "normal forms differ but no numeric difference at the witness"))
+        if n_types == 0:
+            raise AnalysisError(f"{name}: no order type enumerated")
+        _OT_CACHE[ckey] = (n_types, n_nanfree, n_agree, n_exact, n_exact_tried, tuple(nan_at), tuple(differs), tuple(undecided))
+        if name in NAN_BY_DESIGN and nan_at:
+            check.notes.append(f"A2 {name}: NaN at {len(nan_at)} order types - {NAN_BY_DESIGN[name]}")
+            nan_at = []
+        check.require(not nan_at, "A2", f"{name}.membership/order-types",
+                      f"{name}: no order type of (x, parameters) yields a definite NaN ({n_types} order types; NaN excluded at {n_nanfree})" if not nan_at else
+                      f"{name}: membership is NaN for a non-NaN x at the order type `{nan_at[0]}`" + (f" (and {len(nan_at) - 1} more)" if len(nan_at) > 1 else "")
+                      + ": a division 0/0 (or inf-inf) is selected there - the comparison operator at that breakpoint lets the degenerate case through",
+                      loc(fn), {"order_types": n_types, "nan_free": n_nanfree, "nan_at": nan_at[:5]}, exhaustive=True, cases=n_types)
+        if cases is not None:
+            check.require(not differs, "A3", f"{name}.membership/definition",
+                          f"{name}: the kernel equals the documented definition at every order type ({n_types} order types; equal as exact normal forms at "
+                          f"{n_exact} of the {n_exact_tried} finite ones, sign classes agree at the rest)"
+                          if not differs else f"{name}: at `{differs[0][0]}` the kernel yields {differs[0][1][:120]} where the documented definition yields {differs[0][2][:120]}"
+                          + (f" (and {len(differs) - 1} more order types)" if len(differs) > 1 else ""), loc(fn),
+                          {"order_types": n_types, "sign_exact": n_agree, "normal_form_equal": n_exact, "finite_order_types": n_exact_tried,
+                           "undecided": undecided[:5], "differences": differs[:5]}, exhaustive=True, cases=n_types)
 
 
 def monotonic_table(check: Check, rule: str = "M1") -> None:
